@@ -26,6 +26,7 @@ SIDECARS = {
     'geoeligibility': 'mmverif.contracts.geoeligibility_spec',
     'tbrmmdata': 'mmverif.contracts.tbrmmdata_spec',
     'tbrmatchedmarkets': 'mmverif.contracts.tbrmatchedmarkets_spec',
+    'tbrmmdesignparameters': 'mmverif.contracts.tbrmmdesignparameters_spec',
 }
 
 CACHE_DIR = os.path.join(common.VERIF, '.cache', 'obl')
